@@ -345,7 +345,7 @@ package hclwrite
 //@ ensures fresh(ret) && ret != nil && ret.children != nil && WF(ret.children) && handle(ret.body, ret.children) && typeis(ret.body.content, ptr(Body)) && unbox(ret.body.content, ptr(Body)) != nil && InvBody(unbox(ret.body.content, ptr(Body)))
 
 // ---- formatter (unit U5) ----
-// verif:unit U5 props=C09
+// verif:unit U5 props=C09,C15
 
 // verif:func (*Token).asHCLSyntax
 //@ pure
@@ -646,7 +646,7 @@ package hclwrite
 //@ loop 2 invariant rangeindex + 1 <= len(tokens) - 2 && (rangeindex + 1 == 0 ==> labelString == "") && (rangeindex + 1 == 1 ==> labelString == litVal(tokens[1].Bytes))
 
 // ---- Format, the public entry point (unit U5b, C09) ----
-// verif:unit U5b props=C09
+// verif:unit U5b props=C09,C15
 // Format lexes, adjusts spacing and writes the tokens out. What is written must be the lexed tokens:
 // each written token still has the byte slice (same memory, same length) and the type it was lexed
 // with - only SpacesBefore may differ (the format contract above). The ghost fields record what
